@@ -673,3 +673,322 @@ def trace_record(case, outs):
     """record judged by SqlTrace.tla"""
     return {"id": case["id"], "db": {t["name"]: {"rows": t["rows"]} for t in case["tables"]}, "dict": DICT_CODES,
             "q": case["q"], "errok": case["errok"], "outs": outs}
+
+
+# ---------------------------------------------------------------------------------------------
+# Optimizer trigger shapes (C03/C31): statements shaped like the patterns the statistics-driven
+# and decorrelation rules look for, over a dimension table t0(k, d, s) and a fact table
+# t1(fk, a, b, v).  `k` is unique in most databases and deliberately NOT unique (but with a value
+# range >= row count) in some; a/b are small non-negative ints (sometimes negative / NULL).
+class OptShapes(Gen):
+    SHAPES = ["gkr", "gkr_semi", "eager", "eager2", "pgk", "pjk", "having_total", "semi_push", "flatten_exists",
+              "derive_or", "reorder3", "reorder4", "push_outer", "push_outer2", "proj_prune", "not_in_corr", "scalar_corr"]
+
+    def opt_db(self):
+        r = self.rng
+        n0 = r.randint(1, 4)
+        uniq = r.random() < 0.7
+        if uniq:
+            ks = r.sample(range(0, 6), n0)
+        else:
+            ks = [r.choice([1, 1, 5, 2]) for _ in range(n0)]          # duplicates, range >= rows
+        nullable_k = r.random() < 0.15
+        t0 = Table("t0", [("k0", "int"), ("d0", "int"), ("s0", "str")],
+                   [[(None if nullable_k and r.random() < 0.3 else k), r.choice([0, 1, 2, None]) if r.random() < 0.8 else 3, r.choice([1, 2, 4, None])] for k in ks],
+                   nonnull=() if nullable_k else ("k0",))
+        n1 = r.randint(0, 6)
+        neg = r.random() < 0.15
+        nul = r.random() < 0.3
+        def ab():
+            v = r.randint(0, 2)
+            if neg and r.random() < 0.3:
+                v = -1
+            if nul and r.random() < 0.25:
+                v = None
+            return v
+        t1 = Table("t1", [("f1", "int"), ("a1", "int"), ("b1", "int"), ("v1", "int")],
+                   [[r.choice(ks + [7]) if r.random() < 0.9 else None, ab(), ab(), r.choice([0, 1, 2, 3, None])] for _ in range(n1)])
+        return [t0, t1]
+
+    def case(self, cid):
+        r = self.rng
+        self.tables = self.opt_db()
+        t0, t1 = self.tables
+        shape = r.choice(self.SHAPES)
+        q = getattr(self, "shape_" + shape)(t0, t1)
+        c = make_case(cid, self.tables, q, tags=[shape])
+        return c
+
+    # helpers -------------------------------------------------------------------------------
+    def cols(self, t, al):
+        return [Col(al, n, ty, base=True, nullable=(n not in t.nonnull)) for (n, ty) in t.cols]
+
+    def sel(self, fsql, fm, proj, where=None, group=None, order=None, limit=-1, offset=0, distinct=0):
+        names = [self.fresh("k") for _ in proj]
+        sql = "SELECT " + ("DISTINCT " if distinct else "") + ", ".join(f"{e.sql} AS {n}" for e, n in zip(proj, names)) + " FROM " + fsql
+        if where is not None:
+            sql += " WHERE " + where.sql
+        gm = {"on": 0}
+        if group is not None:
+            keys, aggs, having = group
+            gm = {"on": 1, "keys": [k.m for k in keys], "aggs": [a.m for a in aggs], "having": having.m if having is not None else TRUE_M, "sets": []}
+            if keys:
+                sql += " GROUP BY " + ", ".join(k.sql for k in keys)
+            if having is not None:
+                sql += " HAVING " + having.sql
+        om = []
+        if order:
+            sql += " ORDER BY " + ", ".join(f"{names[i]}{' DESC' if d else ''}" for (i, d) in order)
+            om = [{"e": proj[i].m, "desc": d, "nf": 0} for (i, d) in order]
+        if limit >= 0:
+            sql += f" LIMIT {limit}"
+        m = {"k": "select", "from": fm, "where": where.m if where is not None else TRUE_M, "group": gm, "proj": [e.m for e in proj],
+             "distinct": distinct, "order": om, "limit": limit, "offset": offset}
+        return Q(sql, m, [(n, e.t) for e, n in zip(proj, names)])
+
+    def join2(self, t0, t1, kind="inner", on_extra=None, keys=(("k0", "f1"),)):
+        a0, a1 = self.fresh("x"), self.fresh("x")
+        c0, c1 = self.cols(t0, a0), self.cols(t1, a1)
+        sc = Scope(c0 + c1)
+        idx = {c.name: i for i, c in enumerate(c0 + c1)}
+        conj = []
+        for (l, rr) in keys:
+            a, b = sc.ref(0, idx[l]), sc.ref(0, idx[rr])
+            conj.append(E(f"({a.sql} = {b.sql})", {"k": "cmp", "op": "=", "a": a.m, "b": b.m}, "bool"))
+        if on_extra:
+            conj.append(on_extra(sc, idx))
+        on = conj[0]
+        for c in conj[1:]:
+            on = E(f"({on.sql} AND {c.sql})", {"k": "and", "a": on.m, "b": c.m}, "bool")
+        kw = {"inner": "INNER JOIN", "left": "LEFT JOIN", "right": "RIGHT JOIN", "full": "FULL OUTER JOIN"}[kind]
+        fsql = f"{t0.name} AS {a0} {kw} {t1.name} AS {a1} ON {on.sql}"
+        fm = {"k": "join", "kind": kind, "l": {"k": "table", "name": t0.name}, "r": {"k": "table", "name": t1.name}, "on": on.m,
+              "ln": len(c0), "rn": len(c1)}
+        return fsql, fm, sc, idx
+
+    def agg_e(self, f, arg):
+        if f == "count*":
+            return E("COUNT(*)", {"f": "count*", "a": TRUE_M, "distinct": 0}, "int")
+        return E(f"{f.upper()}({arg.sql})", {"f": f, "a": arg.m, "distinct": 0}, "int")
+
+    def cmp(self, a, op, b):
+        return E(f"({a.sql} {op} {b.sql})", {"k": "cmp", "op": op, "a": a.m, "b": b.m}, "bool")
+
+    def gref(self, keys, aggs):
+        cols = [Col(None, k.sql, k.t) for k in keys] + [Col(None, a.sql, a.t) for a in aggs]
+        return Scope(cols)
+
+    # shapes --------------------------------------------------------------------------------
+    def shape_gkr(self, t0, t1):
+        fsql, fm, sc, ix = self.join2(t0, t1)
+        keys = [sc.ref(0, ix["k0"]), sc.ref(0, ix["d0"])] + ([sc.ref(0, ix["s0"])] if self.rng.random() < 0.6 else [])
+        aggs = [self.agg_e("sum", sc.ref(0, ix["v1"])), self.agg_e("count*", None)]
+        g = self.gref(keys, aggs)
+        proj = [g.ref(0, i) for i in range(len(keys) + len(aggs))]
+        return self.sel(fsql, fm, proj, group=(keys, aggs, None))
+
+    def shape_gkr_semi(self, t0, t1):
+        a0 = self.fresh("x")
+        c0 = self.cols(t0, a0)
+        sc = Scope(c0)
+        a1 = self.fresh("x")
+        sub_sc = Scope(self.cols(t1, a1), sc)
+        f = sub_sc.ref(0, 0)
+        sub = self.sel(f"t1 AS {a1}", {"k": "table", "name": "t1"}, [f], where=self.cmp(sub_sc.ref(0, 3), ">=", Lit("int", self.rng.randint(0, 2))))
+        w = E(f"({sc.ref(0, 0).sql} IN ({sub.sql}))", {"k": "insub", "a": sc.ref(0, 0).m, "q": sub.m, "neg": 0}, "bool")
+        keys = [sc.ref(0, 0), sc.ref(0, 1)]
+        aggs = [self.agg_e("count*", None), self.agg_e("max", sc.ref(0, 1))]
+        g = self.gref(keys, aggs)
+        return self.sel(f"t0 AS {a0}", {"k": "table", "name": "t0"}, [g.ref(0, i) for i in range(4)], where=w, group=(keys, aggs, None))
+
+    def shape_eager(self, t0, t1):
+        fsql, fm, sc, ix = self.join2(t0, t1)
+        d, v, a = sc.ref(0, ix["d0"]), sc.ref(0, ix["v1"]), sc.ref(0, ix["a1"])
+        prod = E(f"({d.sql} * {v.sql})", {"k": "arith", "op": "*", "a": d.m, "b": v.m}, "int")
+        arg = prod if self.rng.random() < 0.5 else E(f"({prod.sql} + {d.sql})", {"k": "arith", "op": "+", "a": prod.m, "b": d.m}, "int")
+        keys = [sc.ref(0, ix["s0"])] if self.rng.random() < 0.7 else [sc.ref(0, ix["k0"])]
+        aggs = [self.agg_e("sum", arg)] + ([self.agg_e("sum", v)] if self.rng.random() < 0.5 else [])
+        g = self.gref(keys, aggs)
+        return self.sel(fsql, fm, [g.ref(0, i) for i in range(len(keys) + len(aggs))], group=(keys, aggs, None))
+
+    def shape_eager2(self, t0, t1):
+        fsql, fm, sc, ix = self.join2(t0, t1, keys=(("k0", "a1"), ("d0", "b1")))
+        d, v = sc.ref(0, ix["d0"]), sc.ref(0, ix["v1"])
+        arg = E(f"({v.sql} * {d.sql})", {"k": "arith", "op": "*", "a": v.m, "b": d.m}, "int")
+        keys = [sc.ref(0, ix["s0"])]
+        aggs = [self.agg_e("sum", arg)]
+        g = self.gref(keys, aggs)
+        return self.sel(fsql, fm, [g.ref(0, 0), g.ref(0, 1)], group=(keys, aggs, None))
+
+    def shape_pgk(self, t0, t1):
+        a1 = self.fresh("x")
+        sc = Scope(self.cols(t1, a1))
+        keys = [sc.ref(0, 1), sc.ref(0, 2)]
+        aggs = [self.agg_e("count*", None), self.agg_e("sum", sc.ref(0, 3))]
+        g = self.gref(keys, aggs)
+        return self.sel(f"t1 AS {a1}", {"k": "table", "name": "t1"}, [g.ref(0, i) for i in range(4)], group=(keys, aggs, None))
+
+    def shape_pjk(self, t0, t1):
+        fsql, fm, sc, ix = self.join2(t1, t1, keys=(("a1", "a1"), ("b1", "b1")))
+        # self join: right side columns are at offset 4
+        proj = [sc.ref(0, 0), sc.ref(0, 3), sc.ref(0, 4 + 3)]
+        return self.sel(fsql, fm, proj)
+
+    def join2(self, t0, t1, kind="inner", on_extra=None, keys=(("k0", "f1"),)):   # noqa: F811 (self-join aware)
+        a0, a1 = self.fresh("x"), self.fresh("x")
+        c0, c1 = self.cols(t0, a0), self.cols(t1, a1)
+        sc = Scope(c0 + c1)
+        idx = {}
+        for i, c in enumerate(c0 + c1):
+            idx.setdefault(c.name, i)
+        ridx = {c.name: len(c0) + i for i, c in enumerate(c1)}
+        conj = []
+        for (l, rr) in keys:
+            a, b = sc.ref(0, idx[l]), sc.ref(0, ridx[rr])
+            conj.append(E(f"({a.sql} = {b.sql})", {"k": "cmp", "op": "=", "a": a.m, "b": b.m}, "bool"))
+        if on_extra:
+            conj.append(on_extra(sc, idx))
+        on = conj[0]
+        for c in conj[1:]:
+            on = E(f"({on.sql} AND {c.sql})", {"k": "and", "a": on.m, "b": c.m}, "bool")
+        kw = {"inner": "INNER JOIN", "left": "LEFT JOIN", "right": "RIGHT JOIN", "full": "FULL OUTER JOIN"}[kind]
+        fsql = f"{t0.name} AS {a0} {kw} {t1.name} AS {a1} ON {on.sql}"
+        fm = {"k": "join", "kind": kind, "l": {"k": "table", "name": t0.name}, "r": {"k": "table", "name": t1.name}, "on": on.m,
+              "ln": len(c0), "rn": len(c1)}
+        idx.update({k: v for k, v in ridx.items() if k not in idx})
+        return fsql, fm, sc, idx
+
+    def shape_having_total(self, t0, t1):
+        a1 = self.fresh("x")
+        sc = Scope(self.cols(t1, a1))
+        keys = [sc.ref(0, 1)]
+        aggs = [self.agg_e("sum", sc.ref(0, 3))]
+        g = self.gref(keys, aggs)
+        a2 = self.fresh("x")
+        sc2 = Scope(self.cols(t1, a2))
+        tot = self.agg_e("sum", sc2.ref(0, 3))
+        g2 = self.gref([], [tot])
+        sub = self.sel(f"t1 AS {a2}", {"k": "table", "name": "t1"}, [g2.ref(0, 0)], group=([], [tot], None))
+        sube = E(f"({sub.sql})", {"k": "scalar", "q": sub.m}, "int")
+        lhs = E(f"({g.ref(0, 1).sql} * 2)", {"k": "arith", "op": "*", "a": g.ref(0, 1).m, "b": {"k": "lit", "v": 2}}, "int")
+        having = self.cmp(lhs, self.rng.choice([">", ">=", "<"]), sube)
+        return self.sel(f"t1 AS {a1}", {"k": "table", "name": "t1"}, [g.ref(0, 0), g.ref(0, 1)], group=(keys, aggs, having))
+
+    def shape_semi_push(self, t0, t1):
+        fsql, fm, sc, ix = self.join2(t0, t1)
+        a2 = self.fresh("x")
+        sub_sc = Scope(self.cols(t1, a2), sc)
+        sub = self.sel(f"t1 AS {a2}", {"k": "table", "name": "t1"}, [sub_sc.ref(0, 0)], where=self.cmp(sub_sc.ref(0, 3), ">", Lit("int", self.rng.randint(0, 2))))
+        k = sc.ref(0, ix["k0"])
+        neg = 1 if self.rng.random() < 0.3 else 0
+        w = E(f"({k.sql} {'NOT ' if neg else ''}IN ({sub.sql}))", {"k": "insub", "a": k.m, "q": sub.m, "neg": neg}, "bool")
+        return self.sel(fsql, fm, [k, sc.ref(0, ix["v1"])], where=w)
+
+    def shape_flatten_exists(self, t0, t1):
+        a0 = self.fresh("x")
+        sc = Scope(self.cols(t0, a0))
+        a1 = self.fresh("x")
+        sub_sc = Scope(self.cols(t1, a1), sc)
+        corr = self.cmp(sub_sc.ref(0, 0), "=", sub_sc.ref(1, 0))
+        extra = self.cmp(sub_sc.ref(0, 3), self.rng.choice([">", "<=", "="]), Lit("int", self.rng.randint(0, 2)))
+        w_in = E(f"({corr.sql} AND {extra.sql})", {"k": "and", "a": corr.m, "b": extra.m}, "bool")
+        sub = self.sel(f"t1 AS {a1}", {"k": "table", "name": "t1"}, [sub_sc.ref(0, 1)], where=w_in)
+        neg = 1 if self.rng.random() < 0.4 else 0
+        w = E(f"({'NOT ' if neg else ''}EXISTS ({sub.sql}))", {"k": "exists", "q": sub.m, "neg": neg}, "bool")
+        return self.sel(f"t0 AS {a0}", {"k": "table", "name": "t0"}, [sc.ref(0, 0), sc.ref(0, 2)], where=w)
+
+    def shape_derive_or(self, t0, t1):
+        fsql, fm, sc, ix = self.join2(t0, t1)
+        s, a = sc.ref(0, ix["s0"]), sc.ref(0, ix["a1"])
+        def br(sv, av):
+            x, y = self.cmp(s, "=", Lit("str", sv)), self.cmp(a, "=", Lit("int", av))
+            return E(f"({x.sql} AND {y.sql})", {"k": "and", "a": x.m, "b": y.m}, "bool")
+        b1, b2 = br(1, self.rng.randint(0, 2)), br(self.rng.choice([2, 4]), self.rng.randint(0, 2))
+        w = E(f"({b1.sql} OR {b2.sql})", {"k": "or", "a": b1.m, "b": b2.m}, "bool")
+        return self.sel(fsql, fm, [sc.ref(0, ix["k0"]), s, a], where=w)
+
+    def chain(self, tabs, extra_where=None):
+        """inner join chain tabs[0] x tabs[1] x ... with equalities between consecutive tables (first int columns)"""
+        als = [self.fresh("x") for _ in tabs]
+        cols = []
+        offs = []
+        for t, al in zip(tabs, als):
+            offs.append(len(cols))
+            cols += self.cols(t, al)
+        sc = Scope(cols)
+        fsql = f"{tabs[0].name} AS {als[0]}"
+        fm = {"k": "table", "name": tabs[0].name}
+        ln = len(tabs[0].cols)
+        for i in range(1, len(tabs)):
+            li = offs[i - 1] + (0 if tabs[i - 1].name == "t0" else 0)
+            ri = offs[i]
+            a, b = sc.ref(0, li), sc.ref(0, ri)
+            on = self.cmp(a, "=", b)
+            fsql += f" INNER JOIN {tabs[i].name} AS {als[i]} ON {on.sql}"
+            fm = {"k": "join", "kind": "inner", "l": fm, "r": {"k": "table", "name": tabs[i].name}, "on": on.m, "ln": ln, "rn": len(tabs[i].cols)}
+            ln += len(tabs[i].cols)
+        return fsql, fm, sc, offs
+
+    def shape_reorder3(self, t0, t1):
+        tabs = [self.rng.choice([t0, t1]) for _ in range(3)]
+        fsql, fm, sc, offs = self.chain(tabs)
+        proj = [sc.ref(0, offs[0]), sc.ref(0, offs[2] + 1)]
+        w = self.cmp(sc.ref(0, offs[1] + 1), self.rng.choice([">=", "<", "<>"]), Lit("int", self.rng.randint(0, 2))) if self.rng.random() < 0.6 else None
+        return self.sel(fsql, fm, proj, where=w)
+
+    def shape_reorder4(self, t0, t1):
+        tabs = [t1, t0, t1, t0] if self.rng.random() < 0.5 else [t0, t1, t1, t0]
+        fsql, fm, sc, offs = self.chain(tabs)
+        aggs = [self.agg_e("count*", None), self.agg_e("sum", sc.ref(0, offs[0] + 1))]
+        g = self.gref([], aggs)
+        return self.sel(fsql, fm, [g.ref(0, 0), g.ref(0, 1)], group=([], aggs, None))
+
+    def shape_push_outer(self, t0, t1):
+        kind = self.rng.choice(["left", "right", "full"])
+        fsql, fm, sc, ix = self.join2(t0, t1, kind=kind)
+        choices = [self.cmp(sc.ref(0, ix["v1"]), ">", Lit("int", 0)), self.cmp(sc.ref(0, ix["d0"]), ">=", Lit("int", 1)),
+                   E(f"({sc.ref(0, ix['v1']).sql} IS NULL)", {"k": "isnull", "a": sc.ref(0, ix["v1"]).m, "neg": 0}, "bool"),
+                   E(f"({sc.ref(0, ix['k0']).sql} IS NULL)", {"k": "isnull", "a": sc.ref(0, ix["k0"]).m, "neg": 0}, "bool")]
+        w = self.rng.choice(choices)
+        return self.sel(fsql, fm, [sc.ref(0, ix["k0"]), sc.ref(0, ix["f1"]), sc.ref(0, ix["v1"])], where=w)
+
+    def shape_push_outer2(self, t0, t1):
+        def extra(sc, ix):
+            return self.cmp(sc.ref(0, ix["v1"]) if self.rng.random() < 0.5 else sc.ref(0, ix["d0"]), ">", Lit("int", self.rng.randint(0, 1)))
+        fsql, fm, sc, ix = self.join2(t0, t1, kind=self.rng.choice(["left", "right", "full", "inner"]), on_extra=extra)
+        return self.sel(fsql, fm, [sc.ref(0, ix["k0"]), sc.ref(0, ix["d0"]), sc.ref(0, ix["v1"])])
+
+    def shape_proj_prune(self, t0, t1):
+        fsql, fm, sc, ix = self.join2(t0, t1)
+        keys = [sc.ref(0, ix["s0"])]
+        aggs = [self.agg_e("count*", None), self.agg_e("max", sc.ref(0, ix["b1"]))]
+        g = self.gref(keys, aggs)
+        having = self.cmp(g.ref(0, 2), ">=", Lit("int", self.rng.randint(0, 2)))
+        w = self.cmp(sc.ref(0, ix["a1"]), "<>", Lit("int", 1))
+        return self.sel(fsql, fm, [g.ref(0, 0), g.ref(0, 1)], where=w, group=(keys, aggs, having), order=[(0, 0)])
+
+    def shape_not_in_corr(self, t0, t1):
+        a0 = self.fresh("x")
+        sc = Scope(self.cols(t0, a0))
+        a1 = self.fresh("x")
+        sub_sc = Scope(self.cols(t1, a1), sc)
+        sub = self.sel(f"t1 AS {a1}", {"k": "table", "name": "t1"}, [sub_sc.ref(0, 1)], where=self.cmp(sub_sc.ref(0, 0), "=", sub_sc.ref(1, 0)))
+        d = sc.ref(0, 1)
+        neg = self.rng.randint(0, 1)
+        w = E(f"({d.sql} {'NOT ' if neg else ''}IN ({sub.sql}))", {"k": "insub", "a": d.m, "q": sub.m, "neg": neg}, "bool")
+        return self.sel(f"t0 AS {a0}", {"k": "table", "name": "t0"}, [sc.ref(0, 0), d], where=w)
+
+    def shape_scalar_corr(self, t0, t1):
+        a0 = self.fresh("x")
+        sc = Scope(self.cols(t0, a0))
+        a1 = self.fresh("x")
+        sub_sc = Scope(self.cols(t1, a1), sc)
+        f = self.rng.choice(["sum", "max", "min", "count"])
+        ag = self.agg_e(f, sub_sc.ref(0, 3))
+        g2 = self.gref([], [ag])
+        sub = self.sel(f"t1 AS {a1}", {"k": "table", "name": "t1"}, [g2.ref(0, 0)], where=self.cmp(sub_sc.ref(0, 0), "=", sub_sc.ref(1, 0)), group=([], [ag], None))
+        sube = E(f"({sub.sql})", {"k": "scalar", "q": sub.m}, "int")
+        if self.rng.random() < 0.5:
+            return self.sel(f"t0 AS {a0}", {"k": "table", "name": "t0"}, [sc.ref(0, 0), sube])
+        w = self.cmp(sc.ref(0, 1), self.rng.choice(["<", ">=", "="]), sube)
+        return self.sel(f"t0 AS {a0}", {"k": "table", "name": "t0"}, [sc.ref(0, 0), sc.ref(0, 1)], where=w)
